@@ -314,9 +314,13 @@ class DistributedRateLimiter(Entity):
                 self._global_limit,
             )
 
-            # Create forwarding event to downstream entity
+            # Create forwarding event to downstream entity. The store round
+            # trips above took simulated time, so the forward is stamped with
+            # the clock as it reads now, not with the arrival time captured on
+            # entry (which would be in the past and discarded by the engine).
+            forward_time = self._clock.now if self._clock is not None else now
             forward_event = Event(
-                time=now,
+                time=forward_time,
                 event_type=f"forward::{event.event_type}",
                 target=self._downstream,
                 context=event.context.copy(),
